@@ -175,3 +175,31 @@ Print Assumptions C09_same_reading.
 Print Assumptions C09_fold_langid.
 Print Assumptions C09_variants.
 Print Assumptions C09_variants_whole.
+
+(* the verdict of the metamorphic-pair operations (`loc_meta`, `li_meta`, `ext_meta`) is tied to these theorems
+   (proofs/OracleSoundMeta.v): the model answers SAME / BOTH-ERR - and passes the specification - exactly when the two
+   spellings have the same outcome, which is what every theorem above concludes for its class of pairs *)
+From UL Require Oracle OracleSound OracleSoundMeta.
+Theorem C09_meta_verdict_locale : forall op args r, beqb op (bs "loc_meta"%string) = true ->
+  same_outcome (locale_from_bytes (Oracle.arg_n 0 args)) (locale_from_bytes (Oracle.arg_n 1 args)) ->
+  Oracle.oracle_model_locale op args = Some r -> OracleSound.passes (Oracle.oracle_spec_locale op args r).
+Proof. exact OracleSoundMeta.loc_meta_sound. Qed.
+Theorem C09_meta_verdict_langid : forall op args r, beqb op (bs "li_meta"%string) = true ->
+  same_outcome (langid_from_bytes (Oracle.arg_n 0 args)) (langid_from_bytes (Oracle.arg_n 1 args)) ->
+  Oracle.oracle_model_locale op args = Some r -> OracleSound.passes (Oracle.oracle_spec_locale op args r).
+Proof. exact OracleSoundMeta.li_meta_sound. Qed.
+Theorem C09_meta_verdict_extmap : forall op args r, beqb op (bs "ext_meta"%string) = true ->
+  same_outcome (extmap_from_bytes (Oracle.arg_n 0 args)) (extmap_from_bytes (Oracle.arg_n 1 args)) ->
+  Oracle.oracle_model_locale op args = Some r -> OracleSound.passes (Oracle.oracle_spec_locale op args r).
+Proof. exact OracleSoundMeta.ext_meta_sound. Qed.
+Theorem C09_meta_verdict_means_same_outcome : forall args,
+  (match locale_from_bytes (Oracle.arg_n 0 args), locale_from_bytes (Oracle.arg_n 1 args) with
+   | Ok x, Ok y => LocaleOrd.loc_eqb x y && beqb (loc_to_string x) (loc_to_string y)
+   | Err _, Err _ => true
+   | _, _ => false end) = true ->
+  same_outcome (locale_from_bytes (Oracle.arg_n 0 args)) (locale_from_bytes (Oracle.arg_n 1 args)).
+Proof. exact OracleSoundMeta.loc_meta_complete. Qed.
+Print Assumptions C09_meta_verdict_locale.
+Print Assumptions C09_meta_verdict_langid.
+Print Assumptions C09_meta_verdict_extmap.
+Print Assumptions C09_meta_verdict_means_same_outcome.
